@@ -338,11 +338,12 @@ theorem sum_range_evLen (l : List K) (n a : Nat) :
     rw [this]
     ring
 
-/-- **split length (1-D).**  With both cursors in bounds on polyline entries of positive length of
-a coherent table, the pieces `split_range` hands to `add_segment` for the clamped range `s..e`
+/-- **split length (1-D).**  With both cursors in bounds on straight entries of positive length at
+which the table agrees with the event lengths (the entries in between may belong to curves), the pieces `split_range` hands to `add_segment` for the clamped range `s..e`
 have total length `e − s`. -/
-theorem split_pieces_length (es : List (Edge K)) (l : List K) (p1 p2 : Nat) (s e : K)
-    (hco : Coherent es l)
+theorem split_pieces_length_at (es : List (Edge K)) (l : List K) (p1 p2 : Nat) (s e : K)
+    (c1 : dAt es p1 = pre l ((eAt es p1).index + 1)) (c1' : dAt es (p1 - 1) = pre l (eAt es p1).index)
+    (c2 : dAt es p2 = pre l ((eAt es p2).index + 1)) (c2' : dAt es (p2 - 1) = pre l (eAt es p2).index)
     (h1 : 1 ≤ p1) (h1' : p1 < es.length) (h2 : 1 ≤ p2) (h2' : p2 < es.length)
     (hg1 : dAt es (p1 - 1) < dAt es p1) (hg2 : dAt es (p2 - 1) < dAt es p2)
     (ht1 : tBegin es p1 = 0) (ht1' : (eAt es p1).t = 1)
@@ -352,8 +353,6 @@ theorem split_pieces_length (es : List (Edge K)) (l : List K) (p1 p2 : Nat) (s e
     piecesLen l (splitPieces es p1 p2 s e) = e - s := by
   have a1 := sample_at_distance_1d es p1 s hg1 ht1 ht1'
   have a2 := sample_at_distance_1d es p2 e hg2 ht2 ht2'
-  obtain ⟨c1, c1'⟩ := hco p1 h1 h1'
-  obtain ⟨c2, c2'⟩ := hco p2 h2 h2'
   have l1 : evLen l (eAt es p1).index = dAt es p1 - dAt es (p1 - 1) := by
     have := pre_succ l (eAt es p1).index
     rw [c1, c1']; linarith
@@ -386,6 +385,19 @@ theorem split_pieces_length (es : List (Edge K)) (l : List K) (p1 p2 : Nat) (s e
     have o : (Scalar.one : K) = 1 := by simp
     rw [z, o]
     linarith
+
+/-- **split length (1-D)** for a table coherent everywhere (polyline tables: `init1_coherent`) -/
+theorem split_pieces_length (es : List (Edge K)) (l : List K) (p1 p2 : Nat) (s e : K)
+    (hco : Coherent es l)
+    (h1 : 1 ≤ p1) (h1' : p1 < es.length) (h2 : 1 ≤ p2) (h2' : p2 < es.length)
+    (hg1 : dAt es (p1 - 1) < dAt es p1) (hg2 : dAt es (p2 - 1) < dAt es p2)
+    (ht1 : tBegin es p1 = 0) (ht1' : (eAt es p1).t = 1)
+    (ht2 : tBegin es p2 = 0) (ht2' : (eAt es p2).t = 1)
+    (hidx : (eAt es p1).index ≤ (eAt es p2).index)
+    (hsame : (eAt es p1).index = (eAt es p2).index → p1 = p2) :
+    piecesLen l (splitPieces es p1 p2 s e) = e - s :=
+  split_pieces_length_at es l p1 p2 s e (hco p1 h1 h1').1 (hco p1 h1 h1').2 (hco p2 h2 h2').1
+    (hco p2 h2 h2').2 h1 h1' h2 h2' hg1 hg2 ht1 ht1' ht2 ht2' hidx hsame
 
 /-- **split_lengths_add.**  The pieces for `a..b` and `b..c` add up to those for `a..c`
 (1-D model; the cursor found for `b` as an end may differ from the one found for it as a start). -/
@@ -813,12 +825,12 @@ theorem length_is_fold (steps : List (Step K)) : length (init1 (Scalar.zero : K)
   simpa using this
 
 theorem approxLengthFrom_eq [Transc K] [FlatConst K] (tol : K) (evs : List (Ev K)) :
-    (∀ e ∈ evs, e.isPoly = true) → ∀ l : K,
-    approxLengthFrom l evs = l + total (evs.map (stepOf tol)) := by
+    (∀ e ∈ evs, e.isPoly = true) → ∀ (tol' l : K),
+    approxLengthFrom tol' l evs = l + total (evs.map (stepOf tol)) := by
   induction evs with
-  | nil => intro _ l; simp [approxLengthFrom, total]
+  | nil => intro _ tol' l; simp [approxLengthFrom, total]
   | cons e r ih =>
-    intro hpoly l
+    intro hpoly tol' l
     have he := hpoly e (by simp)
     have ih := ih (fun e' h => hpoly e' (List.mem_cons_of_mem _ h))
     have flip : ∀ p q : P K, vlen (p - q) = vlen (q - p) := by
@@ -842,13 +854,140 @@ theorem approxLengthFrom_eq [Transc K] [FlatConst K] (tol : K) (evs : List (Ev K
       | false => simp only [approxLengthFrom, ih, total, List.map_cons, stepOf, stepLen, List.sum_cons]; ring
 
 /-- **length agrees with `approximate_length`** on polyline paths (same sum of `sqrt`s) -/
-theorem length_eq_approx_length [Transc K] [FlatConst K] (tol : K) (evs : List (Ev K))
+theorem length_eq_approx_length [Transc K] [FlatConst K] (tol tol' : K) (evs : List (Ev K))
     (hpoly : ∀ e ∈ evs, e.isPoly = true) :
-    length (initTable tol evs) = approxLength evs := by
+    length (initTable tol evs) = approxLength tol' evs := by
   unfold initTable approxLength
   rw [length_is_fold, approxLengthFrom_eq tol evs hpoly]
   have z : (Scalar.zero : K) = 0 := by simp
   rw [z]; ring
+
+theorem vlen_flip [Transc K] (p q : P K) : vlen (p - q) = vlen (q - p) := by
+  unfold vlen
+  congr 1
+  simp only [geom]
+  ring
+
+theorem total_append (a b : List (Step K)) : total (a ++ b) = total a + total b := by
+  simp [total]
+
+theorem flattenEvs_isPoly [Transc K] [FlatConst K] (tol : K) (evs : List (Ev K)) :
+    ∀ e ∈ flattenEvs tol evs, e.isPoly = true := by
+  induction evs with
+  | nil => intro e h; simp [flattenEvs] at h
+  | cons e r ih =>
+    intro e' h
+    cases e with
+    | begin p a =>
+      simp only [flattenEvs, List.mem_cons] at h
+      rcases h with h | h
+      · rw [h]; rfl
+      · exact ih e' h
+    | line f g af at_ =>
+      simp only [flattenEvs, List.mem_cons] at h
+      rcases h with h | h
+      · rw [h]; rfl
+      · exact ih e' h
+    | end_ l f al af cl =>
+      simp only [flattenEvs, List.mem_cons] at h
+      rcases h with h | h
+      · rw [h]; rfl
+      · exact ih e' h
+    | quad f c g af at_ =>
+      simp only [flattenEvs, List.mem_append, List.mem_map] at h
+      rcases h with ⟨sg, _, h⟩ | h
+      · rw [← h]; rfl
+      · exact ih e' h
+    | cubic f c1 c2 g af at_ =>
+      simp only [flattenEvs, List.mem_append, List.mem_map] at h
+      rcases h with ⟨sg, _, h⟩ | h
+      · rw [← h]; rfl
+      · exact ih e' h
+
+theorem total_flat_lines [Transc K] [FlatConst K] (tol' : K) (af at_ : List K) (L : List (FlatSeg K)) :
+    total ((L.map (fun s => Ev.line s.a s.b af at_)).map (stepOf tol'))
+      = ((L.map (fun s => (vlen (s.b - s.a), s.t1))).map Prod.fst).sum := by
+  induction L with
+  | nil => simp [total]
+  | cons s r ih =>
+    simp only [total, List.map_cons, List.sum_cons, stepOf, stepLen] at ih ⊢
+    rw [ih, vlen_flip]
+
+/-- the table of a path and the table of its flattening carry the same total length -/
+theorem total_flatten [Transc K] [FlatConst K] (tol tol' : K) (evs : List (Ev K)) :
+    total (evs.map (stepOf tol)) = total ((flattenEvs tol evs).map (stepOf tol')) := by
+  induction evs with
+  | nil => simp [flattenEvs]
+  | cons e r ih =>
+    cases e with
+    | begin p a => simp only [flattenEvs, List.map_cons, total, List.sum_cons, stepOf] at ih ⊢; rw [ih]
+    | line f g af at_ => simp only [flattenEvs, List.map_cons, total, List.sum_cons, stepOf] at ih ⊢; rw [ih]
+    | end_ l f al af cl =>
+      cases cl <;> (simp only [flattenEvs, List.map_cons, total, List.sum_cons, stepOf] at ih ⊢; rw [ih])
+    | quad f c g af at_ =>
+      simp only [flattenEvs, List.map_cons, List.map_append]
+      rw [total_append, ← ih, total_flat_lines]
+      simp only [total, List.map_cons, List.sum_cons, stepOf, stepLen, flatEntries]
+    | cubic f c1 c2 g af at_ =>
+      simp only [flattenEvs, List.map_cons, List.map_append]
+      rw [total_append, ← ih, total_flat_lines]
+      simp only [total, List.map_cons, List.sum_cons, stepOf, stepLen, flatEntries]
+
+/-- **length_eq_approx_length_flattened.**  For ANY path (curves included): the measured length
+(`PathMeasurements::length`, last table entry) equals `approximate_length` of the flattened
+events — the path in which every curve is replaced by the lines `for_each_flattened_with_t`
+emits at the measuring tolerance. -/
+theorem length_eq_approx_length_flattened [Transc K] [FlatConst K] (tol tol' : K) (evs : List (Ev K)) :
+    length (initTable tol evs) = approxLength tol' (flattenEvs tol evs) := by
+  unfold initTable approxLength
+  rw [length_is_fold, approxLengthFrom_eq tol' (flattenEvs tol evs) (flattenEvs_isPoly tol evs),
+    ← total_flatten]
+  have z : (Scalar.zero : K) = 0 := by simp
+  rw [z]; ring
+
+/-! ### what a sample reports: position, tangent, attributes -/
+
+/-- on an event `to_segment` turns into a segment, `sample_impl` reports `segment.sample(t)`,
+`segment.derivative(t).normalize()` and the attributes interpolated by `t` -/
+theorem sample_on_edge [Transc K] (m : M K) (c : Nat) (t : K) (sg : SegW K) (af at_ : List K)
+    (h : toSegment (evAt m (eAt m.edges c).index) = some (sg, af, at_)) :
+    sampleOn m c t = .ok (sg.sample t) (normalize (sg.derivative t)) (interp af at_ t) := by
+  simp [sampleOn, h]
+
+/-- **sample_tangent_is_edge_direction.**  When the cursor rests on a straight edge `f → g` (a
+`Line`, or a closing `End`), the reported tangent is `(g − f) / |g − f|` whatever `t` is — the
+normalised direction of that edge; with the square-root law it has length 1. -/
+theorem sample_tangent_is_edge_direction [Transc K] (m : M K) (c : Nat) (t : K) (f g : P K)
+    (af at_ : List K)
+    (h : toSegment (evAt m (eAt m.edges c).index) = some (.line ⟨f, g⟩, af, at_)) :
+    (∃ pos attrs, sampleOn m c t = .ok pos ((g - f).sdiv (vlen (g - f))) attrs) ∧
+    ((vlen (g - f)) * (vlen (g - f)) = (g - f).sqLen → (g - f).sqLen ≠ 0 →
+      ((g - f).sdiv (vlen (g - f))).sqLen = 1) := by
+  constructor
+  · exact ⟨_, _, by rw [sample_on_edge m c t _ af at_ h]; rfl⟩
+  · intro hs hne
+    have hL : vlen (g - f) ≠ 0 := by
+      intro h0; rw [h0] at hs; simp at hs; exact hne hs.symm
+    have e : ((g - f).sdiv (vlen (g - f))).sqLen
+        = (g - f).sqLen / (vlen (g - f) * vlen (g - f)) := by
+      simp only [geom]
+      field_simp
+    rw [e, hs]
+    exact div_self hne
+
+/-- **sample_attributes_linear.**  The reported attributes are, component by component, the linear
+interpolation `from[i]·(1−t) + to[i]·t` of the attributes of the two endpoints of the segment the
+cursor rests on, at the segment parameter `t`. -/
+theorem sample_attributes_linear [Transc K] (m : M K) (c : Nat) (t : K) (sg : SegW K) (af at_ : List K)
+    (h : toSegment (evAt m (eAt m.edges c).index) = some (sg, af, at_)) :
+    (∃ pos tan, sampleOn m c t = .ok pos tan (interp af at_ t)) ∧
+    (∀ i (hi : i < af.length) (hj : i < at_.length),
+      (interp af at_ t)[i]? = some (af[i] * (1 - t) + at_[i] * t)) := by
+  constructor
+  · exact ⟨_, _, sample_on_edge m c t sg af at_ h⟩
+  · intro i hi hj
+    have o : (Scalar.one : K) = 1 := by simp
+    simp [interp, List.getElem?_zipWith, hi, hj, o]
 
 /-! ### `initialize` establishes the hypotheses used above -/
 
@@ -958,6 +1097,306 @@ theorem init1_coherent (steps : List (Step K)) (hpoly : ∀ st ∈ steps, st.isP
     exact ⟨h2, h3⟩
   · intro k hk
     exact (init1_inv steps hpoly (0 : K) 0 k hk).2.2.2
+
+/-! #### tables with curves: the invariant at the straight entries -/
+
+theorem pushMany_length (es : List (K × K)) : ∀ (d : K) (i : Nat), (pushMany d i es).length = es.length := by
+  induction es with
+  | nil => intro d i; rfl
+  | cons e r ih => intro d i; obtain ⟨l, t⟩ := e; simp [pushMany, ih]
+
+theorem pushMany_index (es : List (K × K)) : ∀ (d : K) (i k : Nat), k < es.length →
+    (eAt (pushMany d i es) k).index = i := by
+  induction es with
+  | nil => intro d i k h; simp at h
+  | cons e r ih =>
+    intro d i k hk
+    obtain ⟨l, t⟩ := e
+    cases k with
+    | zero => simp [pushMany, eAt]
+    | succ k' =>
+      simp only [pushMany, eAt_cons_succ]
+      exact ih (d + l) i k' (by simpa using hk)
+
+theorem pushMany_dAt_last (es : List (K × K)) : ∀ (d : K) (i : Nat), es ≠ [] →
+    dAt (pushMany d i es) (es.length - 1) = sumMany d es := by
+  induction es with
+  | nil => intro d i h; exact absurd rfl h
+  | cons e r ih =>
+    intro d i _
+    obtain ⟨l, t⟩ := e
+    cases r with
+    | nil => simp [pushMany, sumMany, dAt, eAt]
+    | cons e2 r2 =>
+      have := ih (d + l) i (by simp)
+      simp only [pushMany, sumMany, List.length_cons, Nat.add_sub_cancel] at this ⊢
+      show (eAt (_ :: _) (r2.length + 1)).distance = _
+      rw [eAt_cons_succ]
+      exact this
+
+theorem eAt_append_left (A B : List (Edge K)) (k : Nat) (h : k < A.length) : eAt (A ++ B) k = eAt A k := by
+  simp [eAt, List.getD_eq_getElem?_getD, List.getElem?_append_left h]
+
+theorem eAt_append_right (A B : List (Edge K)) (k : Nat) (h : A.length ≤ k) :
+    eAt (A ++ B) k = eAt B (k - A.length) := by
+  simp [eAt, List.getD_eq_getElem?_getD, List.getElem?_append_right h]
+
+/-- **Invariant of `initialize` for paths with curves.**  Every entry belongs to an event `≥ i`;
+an entry whose event is straight (`Begin`, `Line`, closing `End`: `isPoly`) carries `d` + the
+lengths through its event (a curve counting with the total length of its flattening), the entry
+before it carries `d` + the lengths before its event, and its parameter is 1. -/
+theorem init1_inv_mixed (steps : List (Step K)) : ∀ (d : K) (i k : Nat), k < (init1 d i steps).length →
+    i ≤ (eAt (init1 d i steps) k).index ∧
+    ((steps.getD ((eAt (init1 d i steps) k).index - i) .skip).isPoly = true →
+      dAt (init1 d i steps) k
+        = d + pre (steps.map stepLen) ((eAt (init1 d i steps) k).index + 1 - i) ∧
+      (if k = 0 then d else dAt (init1 d i steps) (k - 1))
+        = d + pre (steps.map stepLen) ((eAt (init1 d i steps) k).index - i) ∧
+      (eAt (init1 d i steps) k).t = 1) := by
+  induction steps with
+  | nil => intro d i k h; simp [init1] at h
+  | cons st r ih =>
+    intro d i k hk
+    -- `mark` is `add 0`
+    have key : ∀ (l : K), (∀ (d' : K), init1 d' i (st :: r) = ⟨d' + l, i, Scalar.one⟩ :: init1 (d' + l) (i + 1) r) →
+        stepLen st = l →
+        (i ≤ (eAt (init1 d i (st :: r)) k).index ∧
+        (((st :: r).getD ((eAt (init1 d i (st :: r)) k).index - i) .skip).isPoly = true →
+        dAt (init1 d i (st :: r)) k
+          = d + pre ((st :: r).map stepLen) ((eAt (init1 d i (st :: r)) k).index + 1 - i) ∧
+        (if k = 0 then d else dAt (init1 d i (st :: r)) (k - 1))
+          = d + pre ((st :: r).map stepLen) ((eAt (init1 d i (st :: r)) k).index - i) ∧
+        (eAt (init1 d i (st :: r)) k).t = 1)) := by
+      intro l hinit hl
+      rw [hinit d] at hk ⊢
+      simp only [List.map_cons, hl]
+      cases k with
+      | zero =>
+        have o : (Scalar.one : K) = 1 := by simp
+        simp [eAt, dAt, pre, o]
+      | succ k' =>
+        have hk' : k' < (init1 (d + l) (i + 1) r).length := by simpa using hk
+        obtain ⟨h1, hrest⟩ := ih (d + l) (i + 1) k' hk'
+        rw [eAt_cons_succ]
+        obtain ⟨j, hj⟩ := Nat.exists_eq_add_of_le h1
+        refine ⟨by omega, ?_⟩
+        intro hp
+        have e0 : (eAt (init1 (d + l) (i + 1) r) k').index - i = (j + 1) := by omega
+        have e0' : (eAt (init1 (d + l) (i + 1) r) k').index - (i + 1) = j := by omega
+        rw [e0, List.getD_cons_succ] at hp
+        rw [e0'] at hrest
+        obtain ⟨h2, h3, h4⟩ := hrest hp
+        refine ⟨?_, ?_, h4⟩
+        · show (eAt (_ :: _) (k' + 1)).distance = _
+          rw [eAt_cons_succ]
+          have e1 : (eAt (init1 (d + l) (i + 1) r) k').index + 1 - (i + 1) = j + 1 := by omega
+          have e2 : (eAt (init1 (d + l) (i + 1) r) k').index + 1 - i = (j + 1) + 1 := by omega
+          rw [e1] at h2
+          rw [e2, pre_cons]
+          show dAt _ k' = _
+          rw [h2]; ring
+        · rw [e0, pre_cons]
+          simp only [Nat.add_one_ne_zero, if_false, Nat.add_sub_cancel]
+          cases k' with
+          | zero =>
+            simp only [if_true] at h3
+            simp only [dAt, eAt, List.getD_cons_zero]
+            linarith
+          | succ k'' =>
+            simp only [Nat.add_one_ne_zero, if_false, Nat.add_sub_cancel] at h3
+            show (eAt (_ :: _) (k'' + 1)).distance = _
+            rw [eAt_cons_succ]
+            show dAt _ k'' = _
+            rw [h3]; ring
+    cases st with
+    | skip =>
+      simp only [init1] at hk ⊢
+      obtain ⟨h1, hrest⟩ := ih d (i + 1) k hk
+      obtain ⟨j, hj⟩ := Nat.exists_eq_add_of_le h1
+      simp only [List.map_cons, stepLen]
+      refine ⟨by omega, ?_⟩
+      intro hp
+      have e0 : (eAt (init1 d (i + 1) r) k).index - i = (j + 1) := by omega
+      have e0' : (eAt (init1 d (i + 1) r) k).index - (i + 1) = j := by omega
+      rw [e0, List.getD_cons_succ] at hp
+      rw [e0'] at hrest
+      obtain ⟨h2, h3, h4⟩ := hrest hp
+      refine ⟨?_, ?_, h4⟩
+      · have e1 : (eAt (init1 d (i + 1) r) k).index + 1 - (i + 1) = j + 1 := by omega
+        have e2 : (eAt (init1 d (i + 1) r) k).index + 1 - i = (j + 1) + 1 := by omega
+        rw [e1] at h2
+        rw [e2, pre_cons, h2]; ring
+      · rw [e0, pre_cons, h3]; ring
+    | mark =>
+      exact key 0 (fun d' => by simp [init1]) rfl
+    | add l =>
+      exact key l (fun d' => by simp [init1]) rfl
+    | many es =>
+      simp only [init1] at hk ⊢
+      have hn := pushMany_length es d i
+      by_cases hlt : k < es.length
+      · -- an entry of the curve itself: index `i`, the event is not straight
+        rw [eAt_append_left _ _ _ (by omega), pushMany_index es d i k hlt]
+        refine ⟨le_refl _, ?_⟩
+        intro hp
+        simp [Step.isPoly] at hp
+      · have hge : es.length ≤ k := by omega
+        have hk' : k - es.length < (init1 (sumMany d es) (i + 1) r).length := by
+          simp only [List.length_append, hn] at hk; omega
+        obtain ⟨h1, hrest⟩ := ih (sumMany d es) (i + 1) (k - es.length) hk'
+        rw [eAt_append_right _ _ _ (by omega), hn]
+        obtain ⟨j, hj⟩ := Nat.exists_eq_add_of_le h1
+        refine ⟨by omega, ?_⟩
+        intro hp
+        have e0 : (eAt (init1 (sumMany d es) (i + 1) r) (k - es.length)).index - i = (j + 1) := by omega
+        have e0' : (eAt (init1 (sumMany d es) (i + 1) r) (k - es.length)).index - (i + 1) = j := by omega
+        rw [e0, List.getD_cons_succ] at hp
+        rw [e0'] at hrest
+        obtain ⟨h2, h3, h4⟩ := hrest hp
+        simp only [List.map_cons, stepLen]
+        refine ⟨?_, ?_, h4⟩
+        · show (eAt (_ ++ _) k).distance = _
+          rw [eAt_append_right _ _ _ (by omega), hn]
+          have e1 : (eAt (init1 (sumMany d es) (i + 1) r) (k - es.length)).index + 1 - (i + 1) = j + 1 := by omega
+          have e2 : (eAt (init1 (sumMany d es) (i + 1) r) (k - es.length)).index + 1 - i = (j + 1) + 1 := by omega
+          rw [e1] at h2
+          rw [e2, pre_cons]
+          show dAt _ (k - es.length) = _
+          rw [h2, sumMany_eq]; ring
+        · rw [e0, pre_cons]
+          by_cases hk0 : k - es.length = 0
+          · -- the previous entry is the last one of the curve (or `d` if the curve pushed nothing)
+            rw [hk0] at h3
+            simp only [if_true] at h3
+            have hke : k = es.length := by omega
+            by_cases hes : es = []
+            · subst hes
+              simp only [List.length_nil] at hke
+              simp only [hke, if_true]
+              rw [sumMany_eq] at h3
+              simp only [List.map_nil, List.sum_nil] at h3 ⊢
+              linarith
+            · have hk1 : k ≠ 0 := by
+                intro h; rw [h] at hke
+                exact hes (List.eq_nil_of_length_eq_zero hke.symm)
+              simp only [hk1, if_false]
+              show (eAt (_ ++ _) (k - 1)).distance = _
+              rw [eAt_append_left _ _ _ (by omega), hke]
+              show dAt _ (es.length - 1) = _
+              rw [pushMany_dAt_last es d i hes]
+              rw [sumMany_eq] at h3 ⊢
+              linarith
+          · have hk1 : k ≠ 0 := by omega
+            simp only [hk0, hk1, if_false] at h3 ⊢
+            show (eAt (_ ++ _) (k - 1)).distance = _
+            rw [eAt_append_right _ _ _ (by omega), hn]
+            have : k - 1 - es.length = k - es.length - 1 := by omega
+            rw [this]
+            show dAt _ (k - es.length - 1) = _
+            rw [h3, sumMany_eq]; ring
+
+/-- event indices never decrease along the table, and strictly increase between two consecutive
+entries of which at least one belongs to a straight event (entries of one curve share its index) -/
+theorem init1_index_adjacent_mixed (steps : List (Step K)) : ∀ (d : K) (i k : Nat),
+    k + 1 < (init1 d i steps).length →
+    (eAt (init1 d i steps) k).index ≤ (eAt (init1 d i steps) (k + 1)).index ∧
+    (((steps.getD ((eAt (init1 d i steps) k).index - i) .skip).isPoly = true ∨
+      (steps.getD ((eAt (init1 d i steps) (k + 1)).index - i) .skip).isPoly = true) →
+      (eAt (init1 d i steps) k).index < (eAt (init1 d i steps) (k + 1)).index) := by
+  induction steps with
+  | nil => intro d i k h; simp [init1] at h
+  | cons st r ih =>
+    intro d i k hk
+    have shift : ∀ (d' : K) (m : Nat), m < (init1 d' (i + 1) r).length →
+        ((st :: r).getD ((eAt (init1 d' (i + 1) r) m).index - i) .skip)
+          = r.getD ((eAt (init1 d' (i + 1) r) m).index - (i + 1)) .skip := by
+      intro d' m hm
+      have h1 := (init1_inv_mixed r d' (i + 1) m hm).1
+      obtain ⟨j, hj⟩ := Nat.exists_eq_add_of_le h1
+      have e0 : (eAt (init1 d' (i + 1) r) m).index - i = j + 1 := by omega
+      have e0' : (eAt (init1 d' (i + 1) r) m).index - (i + 1) = j := by omega
+      rw [e0, e0', List.getD_cons_succ]
+    have key : ∀ (l : K), init1 d i (st :: r) = ⟨d + l, i, Scalar.one⟩ :: init1 (d + l) (i + 1) r →
+        ((eAt (init1 d i (st :: r)) k).index ≤ (eAt (init1 d i (st :: r)) (k + 1)).index ∧
+        ((((st :: r).getD ((eAt (init1 d i (st :: r)) k).index - i) .skip).isPoly = true ∨
+          ((st :: r).getD ((eAt (init1 d i (st :: r)) (k + 1)).index - i) .skip).isPoly = true) →
+          (eAt (init1 d i (st :: r)) k).index < (eAt (init1 d i (st :: r)) (k + 1)).index)) := by
+      intro l hinit
+      rw [hinit] at hk ⊢
+      have hk' : k < (init1 (d + l) (i + 1) r).length := by simpa using hk
+      rw [eAt_cons_succ]
+      cases k with
+      | zero =>
+        have := (init1_inv_mixed r (d + l) (i + 1) 0 hk').1
+        simp only [eAt, List.getD_cons_zero]
+        simp only [eAt] at this
+        exact ⟨by omega, fun _ => by omega⟩
+      | succ k' =>
+        rw [eAt_cons_succ]
+        have := ih (d + l) (i + 1) k' hk'
+        rw [shift (d + l) k' (by omega), shift (d + l) (k' + 1) hk']
+        exact this
+    cases st with
+    | skip =>
+      simp only [init1] at hk ⊢
+      have := ih d (i + 1) k hk
+      rw [shift d k (by omega), shift d (k + 1) hk]
+      exact this
+    | mark => exact key 0 (by simp [init1])
+    | add l => exact key l (by simp [init1])
+    | many es =>
+      simp only [init1] at hk ⊢
+      have hn := pushMany_length es d i
+      have hlen : (pushMany d i es ++ init1 (sumMany d es) (i + 1) r).length
+          = es.length + (init1 (sumMany d es) (i + 1) r).length := by
+        rw [List.length_append, hn]
+      rw [hlen] at hk
+      by_cases h1 : k + 1 < es.length
+      · rw [eAt_append_left _ _ _ (by omega), eAt_append_left _ _ _ (by omega),
+          pushMany_index es d i k (by omega), pushMany_index es d i (k + 1) h1]
+        refine ⟨le_refl _, ?_⟩
+        intro hp
+        simp [Step.isPoly] at hp
+      · by_cases h2 : k < es.length
+        · have hk1 : k + 1 - es.length < (init1 (sumMany d es) (i + 1) r).length := by omega
+          have := (init1_inv_mixed r (sumMany d es) (i + 1) (k + 1 - es.length) hk1).1
+          rw [eAt_append_left _ _ _ (by omega), eAt_append_right _ _ _ (by omega), hn,
+            pushMany_index es d i k h2]
+          exact ⟨by omega, fun _ => by omega⟩
+        · have hk0 : k - es.length + 1 < (init1 (sumMany d es) (i + 1) r).length := by omega
+          have := ih (sumMany d es) (i + 1) (k - es.length) hk0
+          rw [eAt_append_right _ _ _ (by omega), eAt_append_right _ _ _ (by omega), hn]
+          have e : k + 1 - es.length = k - es.length + 1 := by omega
+          rw [e, shift (sumMany d es) (k - es.length) (by omega), shift (sumMany d es) (k - es.length + 1) hk0]
+          exact this
+
+/-- over any distance: indices are monotone, and distinct entries of which the earlier one is
+straight have distinct indices -/
+theorem init1_index_mixed (steps : List (Step K)) (d : K) (i : Nat) :
+    ∀ p q, p ≤ q → q < (init1 d i steps).length →
+      (eAt (init1 d i steps) p).index ≤ (eAt (init1 d i steps) q).index ∧
+      ((steps.getD ((eAt (init1 d i steps) p).index - i) .skip).isPoly = true →
+        (eAt (init1 d i steps) p).index = (eAt (init1 d i steps) q).index → p = q) := by
+  have mono : ∀ p q, p ≤ q → q < (init1 d i steps).length →
+      (eAt (init1 d i steps) p).index ≤ (eAt (init1 d i steps) q).index := by
+    intro p q hpq
+    induction q with
+    | zero => intro _; have : p = 0 := by omega
+              rw [this]
+    | succ n ih =>
+      intro hq
+      rcases Nat.lt_or_ge p (n + 1) with h | h
+      · exact le_trans (ih (by omega) (by omega)) (init1_index_adjacent_mixed steps d i n hq).1
+      · have : p = n + 1 := by omega
+        rw [this]
+  intro p q hpq hq
+  refine ⟨mono p q hpq hq, ?_⟩
+  intro hp heq
+  by_contra hne
+  have hlt : p + 1 ≤ q := by omega
+  have a := (init1_index_adjacent_mixed steps d i p (by omega)).2 (Or.inl hp)
+  have b := mono (p + 1) q hlt hq
+  omega
 
 /-- event indices strictly increase along a polyline table -/
 theorem init1_index_adjacent (steps : List (Step K)) : (∀ st ∈ steps, st.isPoly = true) →
@@ -1127,6 +1566,65 @@ theorem split_lengths_add_measured (steps : List (Step K)) (hpoly : ∀ st ∈ s
     simp
   · intro p q _ hpq hq
     exact init1_index_strict steps hpoly (0 : K) 0 p q hpq hq
+
+/-- an entry of the table belongs to a straight event (`Begin`, `Line`, closing `End`) -/
+def StraightAt (steps : List (Step K)) (p : Nat) : Prop :=
+  (steps.getD (eAt (init1 (0 : K) 0 steps) p).index .skip).isPoly = true
+
+theorem straight_entry_facts (steps : List (Step K)) (p : Nat) (hp1 : 1 ≤ p)
+    (hp : p < (init1 (0 : K) 0 steps).length) (hs : StraightAt steps p) :
+    dAt (init1 (0 : K) 0 steps) p = pre (steps.map stepLen) ((eAt (init1 (0 : K) 0 steps) p).index + 1) ∧
+    dAt (init1 (0 : K) 0 steps) (p - 1) = pre (steps.map stepLen) (eAt (init1 (0 : K) 0 steps) p).index ∧
+    tBegin (init1 (0 : K) 0 steps) p = 0 ∧ (eAt (init1 (0 : K) 0 steps) p).t = 1 := by
+  obtain ⟨_, hrest⟩ := init1_inv_mixed steps (0 : K) 0 p hp
+  obtain ⟨h2, h3, h4⟩ := hrest (by simpa [StraightAt] using hs)
+  have hp0 : p ≠ 0 := by omega
+  simp only [hp0, if_false, Nat.sub_zero, zero_add] at h2 h3
+  refine ⟨h2, h3, ?_, h4⟩
+  have := (init1_index_adjacent_mixed steps (0 : K) 0 (p - 1) (by omega)).2
+  have e : p - 1 + 1 = p := by omega
+  rw [e] at this
+  have := this (Or.inr (by simpa [StraightAt] using hs))
+  unfold tBegin
+  rw [if_neg (ne_of_lt this)]
+  simp
+
+/-- **split length on a path with curves**: cut points on straight entries, anything in between -/
+theorem split_pieces_length_curved (steps : List (Step K)) (p1 p2 : Nat) (s e : K)
+    (h1 : 1 ≤ p1) (h12 : p1 ≤ p2) (h2' : p2 < (init1 (0 : K) 0 steps).length)
+    (s1 : StraightAt steps p1) (s2 : StraightAt steps p2)
+    (hg1 : dAt (init1 (0 : K) 0 steps) (p1 - 1) < dAt (init1 (0 : K) 0 steps) p1)
+    (hg2 : dAt (init1 (0 : K) 0 steps) (p2 - 1) < dAt (init1 (0 : K) 0 steps) p2) :
+    piecesLen (steps.map stepLen) (splitPieces (init1 (0 : K) 0 steps) p1 p2 s e) = e - s := by
+  obtain ⟨a1, a2, a3, a4⟩ := straight_entry_facts steps p1 h1 (by omega) s1
+  obtain ⟨b1, b2, b3, b4⟩ := straight_entry_facts steps p2 (by omega) h2' s2
+  have hi := init1_index_mixed steps (0 : K) 0 p1 p2 h12 h2'
+  exact split_pieces_length_at _ _ p1 p2 s e a1 a2 b1 b2 h1 (by omega) (by omega) h2' hg1 hg2
+    a3 a4 b3 b4 hi.1 (hi.2 (by simpa [StraightAt] using s1))
+
+/-- **split_lengths_add on paths with curves** (`split_lengths_add_measured` for curved tables, as
+far as the 1-D length of a piece is defined): for the table `initialize` builds from ANY event
+sequence — curves contribute the entries of their flattening and count with its total length —
+the pieces for `a..b` and `b..c` add up to those for `a..c` whenever the cut points `a`, `b`, `c`
+fall on straight edges (of positive length); the ranges may contain any number of curves.
+(A cut INSIDE a curve has no 1-D length in this model: the piece is the sub-curve `split_range(t0..t1)`
+of C10, whose arclength is not linear in `t`; that case is covered by the oracle only.) -/
+theorem split_lengths_add_curved (steps : List (Step K)) (pa pb pb' pc : Nat) (a b c : K)
+    (ha : 1 ≤ pa) (hab : pa ≤ pb) (hab' : pa ≤ pc) (hb' : 1 ≤ pb') (hbc : pb' ≤ pc)
+    (hc : pc < (init1 (0 : K) 0 steps).length) (hb : pb < (init1 (0 : K) 0 steps).length)
+    (sa : StraightAt steps pa) (sb : StraightAt steps pb) (sb' : StraightAt steps pb')
+    (sc : StraightAt steps pc)
+    (ga : dAt (init1 (0 : K) 0 steps) (pa - 1) < dAt (init1 (0 : K) 0 steps) pa)
+    (gb : dAt (init1 (0 : K) 0 steps) (pb - 1) < dAt (init1 (0 : K) 0 steps) pb)
+    (gb' : dAt (init1 (0 : K) 0 steps) (pb' - 1) < dAt (init1 (0 : K) 0 steps) pb')
+    (gc : dAt (init1 (0 : K) 0 steps) (pc - 1) < dAt (init1 (0 : K) 0 steps) pc) :
+    piecesLen (steps.map stepLen) (splitPieces (init1 (0 : K) 0 steps) pa pb a b)
+      + piecesLen (steps.map stepLen) (splitPieces (init1 (0 : K) 0 steps) pb' pc b c)
+      = piecesLen (steps.map stepLen) (splitPieces (init1 (0 : K) 0 steps) pa pc a c) := by
+  rw [split_pieces_length_curved steps pa pb a b ha hab hb sa sb ga gb,
+    split_pieces_length_curved steps pb' pc b c hb' hbc hc sb' sc gb' gc,
+    split_pieces_length_curved steps pa pc a c ha hab' hc sa sc ga gc]
+  ring
 
 /-! ### the cursor always rests on an edge that can be sampled
 
@@ -1367,6 +1865,27 @@ example : (0 : ℚ) ≤ 0 ∧ (⟨0, 0, 0, false, 0⟩ : Walk.W1 ℚ).nextDistan
 example [Transc ℚ] [FlatConst ℚ] (tol : ℚ) (cmds : List (Cmd ℚ)) :
     (Measure.mk 0 tol cmds).edges
       = initTable (Scalar.max tol (Scalar.ofSci 1 4)) (Measure.mk 0 tol cmds).evs := rfl
+
+/-- hypotheses of `split_pieces_length_curved` / `split_lengths_add_curved`: a path
+`begin, line (1), quadratic flattened into two lines (1 + 1), line (2)`; the cursors 1 and 4 rest on
+the two straight edges, the curve's two entries (2, 3) lie in between -/
+noncomputable def exCurvedSteps : List (Step ℚ) := [.mark, .add 1, .many [(1, 1/2), (1, 1)], .add 2]
+
+example : (init1 (0 : ℚ) 0 exCurvedSteps).length = 5 ∧ StraightAt exCurvedSteps 1 ∧
+    StraightAt exCurvedSteps 4 ∧ ¬ StraightAt exCurvedSteps 2 ∧
+    dAt (init1 (0 : ℚ) 0 exCurvedSteps) (1 - 1) < dAt (init1 (0 : ℚ) 0 exCurvedSteps) 1 ∧
+    dAt (init1 (0 : ℚ) 0 exCurvedSteps) (4 - 1) < dAt (init1 (0 : ℚ) 0 exCurvedSteps) 4 := by
+  have o : (Scalar.one : ℚ) = 1 := by simp
+  have hT : init1 (0 : ℚ) 0 exCurvedSteps
+      = [⟨0, 0, 1⟩, ⟨1, 1, 1⟩, ⟨2, 2, 1/2⟩, ⟨3, 2, 1⟩, ⟨5, 3, 1⟩] := by
+    simp [exCurvedSteps, init1, pushMany, sumMany, o]
+    norm_num
+  refine ⟨by rw [hT]; rfl, ?_, ?_, ?_, ?_, ?_⟩
+  · unfold StraightAt; rw [hT]; simp [eAt, exCurvedSteps, Step.isPoly]
+  · unfold StraightAt; rw [hT]; simp [eAt, exCurvedSteps, Step.isPoly]
+  · unfold StraightAt; rw [hT]; simp [eAt, exCurvedSteps, Step.isPoly]
+  · rw [hT]; simp [dAt, eAt]
+  · rw [hT]; simp [dAt, eAt]; norm_num
 
 end Examples
 
